@@ -134,7 +134,7 @@ def check_dataset(path, df, spec, o, fm):
         allf = []
         for dp, _, fs in os.walk(path):
             allf += [os.path.join(dp, f) for f in fs]
-        parts = sorted([f for f in allf if _part_no(f) >= 0], key=_part_no)
+        parts = sorted([f for f in allf if _part_no(f) >= 0], key=lambda f: (_part_no(f), os.path.relpath(f, path)))
         metas = sorted(f for f in allf if os.path.basename(f) in ("_metadata", "_common_metadata"))
         other = [f for f in allf if f not in parts and f not in metas]
         if other:
@@ -143,6 +143,7 @@ def check_dataset(path, df, spec, o, fm):
             res["problems"].append(("layout", "no _metadata file in a hive/drill dataset"))
     leaves, cols = None, {}
     part_rgs = []
+    part_rows = []
     for fn in parts:
         data = open(fn, "rb").read()
         res["files"] += 1
@@ -161,6 +162,8 @@ def check_dataset(path, df, spec, o, fm):
         for rg in r["rgs"]:
             for l, cells in zip(leaves, rg):
                 cols[l["name"]].extend(cells)
+        part_rows.append((os.path.dirname(os.path.relpath(fn, path)) if os.path.isdir(path) else "",
+                          sum(len(rg[0]) if rg else 0 for rg in r["rgs"])))
         try:
             k, bad = page_model_check(fm, data, r["leaves"], r["rgs"])
             res["model_pages"] = res.get("model_pages", 0) + k
@@ -173,7 +176,8 @@ def check_dataset(path, df, spec, o, fm):
             res["problems"].append(("metadata", "%s: key_value_metadata['pandas'] missing or not JSON" % os.path.basename(fn)))
         else:
             named = [c.get("name") for c in pm.get("columns", []) if isinstance(c, dict)]
-            miss = [str(c) for c in df.columns if str(c) not in [str(x) for x in named]]
+            pkn = (o.get("partition") or {}).get("name")
+            miss = [str(c) for c in df.columns if str(c) not in [str(x) for x in named] and str(c) != pkn]
             if miss:
                 res["problems"].append(("metadata", "%s: pandas metadata does not name columns %r" % (os.path.basename(fn), miss[:3])))
         if metas:
@@ -212,7 +216,26 @@ def check_dataset(path, df, spec, o, fm):
         return res
     # expected physical table
     import pandas as pd
-    iw = rt.index_expected(df, o)
+    iw = rt.index_expected(df, o)        # decided on the frame as written (before the rows are put into part order)
+    if o.get("partition"):
+        pk = o["partition"]["name"]
+        by_key = {}
+        for i, v in enumerate(df[pk].tolist()):
+            by_key.setdefault(str(v), []).append(i)
+        perm = []
+        for d, n in part_rows:
+            key = d.split("/")[-1]
+            key = key.split("=", 1)[1] if "=" in key else key
+            take, by_key[key] = by_key.get(key, [])[:n], by_key.get(key, [])[n:]
+            if len(take) != n:
+                res["problems"].append(("partition", "directory %r holds %d rows more than the frame has for that key" % (d, n - len(take))))
+            perm += take
+        left = sum(len(v) for v in by_key.values())
+        if left:
+            res["problems"].append(("partition", "%d rows of the frame are in no part file" % left))
+        if any(p[0] == "partition" for p in res["problems"]):
+            return res
+        df = df.iloc[perm].drop(columns=[pk])
     want = {str(c): df[c] for c in df.columns}
     extra = [l["name"] for l in leaves if l["name"] not in want]
     if iw:
@@ -246,6 +269,26 @@ def check_dataset(path, df, spec, o, fm):
     return res
 
 
+def write_partitioned(df, path, spec, o):
+    """rt.write_frame with partition_on (hive / drill directory levels)"""
+    import fastparquet
+    from fastparquet import writer
+    from harness import rt
+    old = writer.MAX_PAGE_SIZE, writer.DATAPAGE_VERSION
+    try:
+        if o["page_size"]:
+            writer.MAX_PAGE_SIZE = o["page_size"]
+        writer.DATAPAGE_VERSION = o["dpv"]
+        kw = dict(compression=o["compression"], row_group_offsets=o["row_group_offsets"], has_nulls=o["has_nulls"], stats=o["stats"],
+                  times=o["times"], object_encoding=rt.object_encoding_for(spec, o), file_scheme=o["file_scheme"],
+                  write_index=o["write_index"], partition_on=[o["partition"]["name"]])
+        if kw["row_group_offsets"] is None:
+            del kw["row_group_offsets"]
+        fastparquet.write(path, df, **kw)
+    finally:
+        writer.MAX_PAGE_SIZE, writer.DATAPAGE_VERSION = old
+
+
 def _job(job):
     from harness import rt
     spec, o = job
@@ -254,7 +297,13 @@ def _job(job):
         df = F.build(spec)
         path = os.path.join(tmp, "rt.parquet" if o["file_scheme"] == "simple" else "rt_ds")
         try:
-            rt.write_frame(df, path, spec, o)
+            if o.get("partition"):
+                pk = o["partition"]
+                vals = ["a", "b", "c"] if pk["kind"] == "str" else [0, 1, 2]
+                df[pk["name"]] = [vals[(i * 7 // 3) % pk["k"]] for i in range(len(df))]
+                write_partitioned(df, path, spec, o)
+            else:
+                rt.write_frame(df, path, spec, o)
         except Exception as e:     # noqa: a write that raises is an allowed outcome (C18 owns "and leaves nothing behind")
             return {"outcome": "write-raised", "err": "%s: %s" % (type(e).__name__, str(e)[:200]), "problems": []}
         try:
@@ -277,6 +326,14 @@ def _one(rng, kind, n):
     if n > 300:
         o["page_size"] = rng.choice([None, 1000, 4096])
     return spec, _cap_row_groups(spec, o)
+
+
+def _maybe_partition(rng, spec, o):
+    if o["file_scheme"] != "simple" and spec["n"] > 0 and spec["cols"] and rng.random() < 0.35:
+        o["partition"] = {"name": "pkey", "kind": rng.choice(["str", "int"]), "k": rng.choice([1, 2, 3])}
+        if isinstance(o["has_nulls"], list) and rng.random() < 0.5:
+            o["has_nulls"] = o["has_nulls"] + ["pkey"]
+    return o
 
 
 def _cap_row_groups(spec, o):
@@ -310,7 +367,7 @@ def gen_jobs(ctx):
         spec = F.gen_spec(rng, n=rng.choice(sizes_small + ([257, 8193] if rng.random() < 0.1 else [])))
         o = rt.gen_opts(rng, spec)
         o["file_scheme"] = rng.choice(["simple", "simple", "hive", "drill"])
-        jobs.append((spec, _cap_row_groups(spec, o)))
+        jobs.append((spec, _maybe_partition(rng, spec, _cap_row_groups(spec, o))))
     return jobs
 
 
@@ -351,7 +408,7 @@ def run(ctx):
     ctx.rule = ("(frame spec, option tuple) pairs: every dtype kind x framing sizes {0,1,2,7,8,9,63,64,65,127,128,129,255,256,257,"
                 "8191,8192,8193} x null patterns x options from one PRNG (compression incl. per-column, row_group_offsets None/int/list, "
                 "has_nulls True/False/'infer'/list, MAX_PAGE_SIZE, DATAPAGE_VERSION 1/2, stats, times int64/int96, object_encoding, "
-                "file_scheme simple/hive/drill incl. _metadata/_common_metadata, write_index); every written file -> pqref fmt_validate "
+                "file_scheme simple/hive/drill incl. _metadata/_common_metadata, partition_on a key column with 1..3 values, write_index); every written file -> pqref fmt_validate "
                 "+ fmt_decode; trivial = the write raised (allowed outcome); distinct = distinct (spec, options)")
     jobs = gen_jobs(ctx)
     results = C.pmap(_job, jobs, init=_init, nproc=min(8, os.cpu_count() or 4), job_timeout=300)
@@ -368,6 +425,7 @@ def run(ctx):
         ctx.count("rows", spec["n"])
         ctx.count("dpv", o["dpv"])
         ctx.count("file_scheme", o["file_scheme"])
+        ctx.count("partition_on", (o.get("partition") or {}).get("kind"))
         ctx.count("compression", "percol" if isinstance(o["compression"], dict) else o["compression"])
         ctx.count("has_nulls", "list" if isinstance(o["has_nulls"], list) else o["has_nulls"])
         for k in sorted(set(c["kind"] for c in spec["cols"])):
